@@ -81,7 +81,9 @@ def strategy():
                 tags['LY'] = draw(st.sampled_from(['lib1', 'lib2']))
             r = {'name': 'r%d' % j, 'flag': flag, 'tid': tid, 'pos': pos, 'mapq': draw(st.sampled_from([0, 1, 10, 20, 30, 60])),
                  'cigar': cigar, 'tags': tags, 'mtid': tid if paired else -1, 'mpos': pos if paired else -1}
-            if unmapped:
+            if unmapped and draw(st.integers(0, 2)) == 0:
+                r['flag'] |= 4        # flagged unmapped but still carrying position and CIGAR (bwa: alignment hanging over a contig end)
+            elif unmapped:
                 r['flag'] |= 4
                 r['cigar'] = None
                 r['mapq'] = 0
@@ -153,7 +155,12 @@ def strategy():
                 e = src['pos'] + cigar_ref_len(src['cigar']) + draw(st.integers(1, 15))
                 blacklist.append([contigs[src['tid']][0], s, e])
             blacklist = [b for b in blacklist if unambiguous(b, recs, contigs)] or None
-        return {'contigs': contigs, 'records': recs, 'opts': o, 'bed': bed, 'blacklist': blacklist}
+        second = None
+        if draw(st.integers(0, 3)) == 0:
+            # a second alignment file counted in the same call: the same reads under other cell names
+            k = draw(st.integers(1, n))
+            second = [dict(r, name='s%d' % i, tags=dict(r['tags'], SM='other%d' % (i % 2))) for i, r in enumerate(recs[:k])]
+        return {'contigs': contigs, 'records': recs, 'opts': o, 'bed': bed, 'blacklist': blacklist, 'second': second}
     return case()
 
 
@@ -198,9 +205,18 @@ def eval_case(case):
             args['blacklist'] = bl
             files.append(bl)
         exp = ct.recount(contigs, recs, o, bed=case['bed'], blacklist=case['blacklist'])
+        ns = ct.make_args(path, args)
+        if case.get('second'):
+            path2 = os.path.join(d, 'c11_%d_second.bam' % pid)
+            write_bam(path2, contigs, case['second'])
+            files.extend([path2, path2 + '.bai'])
+            ns.alignmentfiles = [path, path2]
+            for k_, v_ in ct.recount(contigs, case['second'], o, bed=case['bed'], blacklist=case['blacklist']).items():
+                exp[k_] = exp.get(k_, 0) + v_
+            out.label('two alignment files')
         try:
             with contextlib.redirect_stdout(io.StringIO()):
-                df = create_count_table(ct.make_args(path, args), return_df=True)
+                df = create_count_table(ns, return_df=True)
             got = ct.df_to_dict(df)
         except Exception as e:
             import traceback
